@@ -827,6 +827,9 @@ void h_quasiquote(void) {
     /* x: the tuple / array, or a bare datum, or a bare (unquote F); built and compiled per shape so that the template stays concrete */
     int shape = nd_int();
     __CPROVER_assume(shape >= 0 && shape <= 2);
+#ifdef SP_QQ_DEBUG
+    shape = 0; is_array = 0;
+#endif
     sp_slotpool_next = 0; sp_nev = 0; sp_ev_pushed = 0;
     JanetFopts opts = sp_opts();
     int depth = nd_int();
